@@ -74,6 +74,9 @@ class SpinChainNNN(CouplingMPOModel, NearestNeighborModel):
         conserve = model_params.get('conserve', 'best', str)
         if conserve == 'best':
             # check how much we can conserve
+            # (`any_nonzero` assumes vanishing default values, so set the non-zero defaults explicitly)
+            for key in ['Jx', 'Jy', 'Jxp', 'Jyp']:
+                model_params.setdefault(key, 1.0)
             if not model_params.any_nonzero([('Jx', 'Jy'), ('Jxp', 'Jyp'), 'hx', 'hy'], 'check Sz conservation'):
                 conserve = 'Sz'
             elif not model_params.any_nonzero(['hx', 'hy'], 'check parity conservation'):
@@ -167,6 +170,9 @@ class SpinChainNNN2(CouplingMPOModel):
         conserve = model_params.get('conserve', 'best', str)
         if conserve == 'best':
             # check how much we can conserve
+            # (`any_nonzero` assumes vanishing default values, so set the non-zero defaults explicitly)
+            for key in ['Jx', 'Jy', 'Jxp', 'Jyp']:
+                model_params.setdefault(key, 1.0)
             if not model_params.any_nonzero([('Jx', 'Jy'), ('Jxp', 'Jyp'), 'hx', 'hy'], 'check Sz conservation'):
                 conserve = 'Sz'
             elif not model_params.any_nonzero(['hx', 'hy'], 'check parity conservation'):
